@@ -44,4 +44,29 @@ inline void converting_constructors()
 	asl::Dic<asl::String> ds(mi);
 	(void)ms; (void)mii; (void)ds;
 }
+
+// functor-taking and converting member templates of Array: instantiated for a trivially copyable element and for String
+struct IntPred { bool operator()(int x) const { return x > 0; } };
+struct StrPred { bool operator()(const asl::String& x) const { return x.length() > 0; } };
+struct IntLess { bool operator()(int a, int b) const { return a < b; } };
+struct StrLess { bool operator()(const asl::String& a, const asl::String& b) const { return a < b; } };
+struct IntKey { int operator()(int x) const { return -x; } };
+struct StrKey { int operator()(const asl::String& x) const { return x.length(); } };
+struct IntMap { int operator()(int x) const { return x + 1; } };
+struct StrMap { asl::String operator()(const asl::String& x) const { return x; } };
+
+inline void array_member_templates()
+{
+	asl::Array<int> ai;
+	asl::Array<asl::String> as;
+	ai.removeIf(IntPred()); as.removeIf(StrPred());
+	(void)ai.filter(IntPred()); (void)as.filter(StrPred());
+	ai.sort(IntLess()); as.sort(StrLess());
+	ai.sortBy(IntKey()); as.sortBy(StrKey());
+	(void)ai.map(IntMap()); (void)as.map(StrMap());
+	asl::Array<double> ad(ai);
+	ad = ai;
+	(void)ai.with<double>();
+	(void)ad;
+}
 }
